@@ -11,7 +11,7 @@ UNITS = [
 
 UNITS += [
     Unit(name="c18.string.prepare", props=["C18", "C15"], tu="asmjit/core/string.cpp", roots=["asmjit::String::prepare"], target="String_prepare",
-         contracts="contracts/c18_string.h", unwind=44, extra_cbmc=["--malloc-may-fail", "--malloc-fail-null"], object_bits=10,
+         contracts="contracts/c18_string.h", unwind=44, replay="replay/c18_string_prepare.cpp", extra_cbmc=["--malloc-may-fail", "--malloc-fail-null"], object_bits=10,
          kind="bounded", bound_note="pre-state heap/external buffers <= 40 bytes (all embedded states are covered exactly); requested size symbolic up to 2^40",
          trusted=["malloc/free: CBMC built-in model with --malloc-may-fail --malloc-fail-null", "memcpy: byte loop stub"]),
 ]
